@@ -199,7 +199,7 @@ def run_group(group, tier, seed, extra_env=None, force=False):
         if rc != 0:
             open(os.path.join(out, 'harness.log'), 'w').write(o)
             raise RuntimeError(f'harness failed on group {group}: rc={rc}: {o[-400:]}')
-        rc, o2 = sh([DRIVER_BIN, os.path.join(out, 'keys.txt'), os.path.join(out, 'ops.txt'), os.path.join(out, 'model.txt')],
+        rc, o2 = sh([DRIVER_BIN, os.path.join(out, 'keys.txt'), os.path.join(out, 'ops.txt'), os.path.join(out, 'model.txt')] + (['lite'] if group == 'pgn' else []),
                     timeout=7200)
         t2 = time.time()
         if rc != 0:
@@ -271,6 +271,10 @@ def compare_group(prop, group, rundir, stats):
             k, v = only_if[op]
             if klass(I.get(k)) != v and klass(M1.get(k)) != v:
                 continue
+        # successor observations belong to C02/C04/C05/C06/C07 only for moves the SPECIFICATION calls legal
+        # (an illegal move the implementation wrongly accepts is C01/C03's finding, not theirs)
+        if op == 'mv' and prop != 'C03' and M0.get('r') != 'ok':
+            continue
         n += 1
         stats['per_op'][op] = stats['per_op'].get(op, 0) + 1
         hsh = hashlib.md5(opl.encode()).digest()[:8]
